@@ -288,7 +288,24 @@ func TestUnionPruned(t *testing.T) {
 			k := g.LogUniform(t, "k", 1/S, 32/S)
 			bl = blend{"ExpMin", k, sdf.ExpMin(k)}
 		}
-		us := sdf.Union2D(ops...)
+		// the operand list as callers build it: an existing slice that may hold nil entries (documented as
+		// stripped); it is scribbled over after the constructor returned
+		var args []sdf.SDF2
+		nilAt := rapid.IntRange(-1, n).Draw(t, "nil-entry-at")
+		for i, o := range ops {
+			if i == nilAt {
+				args = append(args, nil)
+			}
+			args = append(args, o)
+		}
+		if nilAt == n {
+			args = append(args, nil)
+		}
+		us := sdf.Union2D(args...)
+		for i := range args {
+			args[i] = nil
+		}
+		rec.Add(fmt.Sprintf("union:nil-entry=%v", nilAt >= 0), 1)
 		u, ok := us.(*sdf.UnionSDF2)
 		if !ok {
 			t.Fatalf("Union2D of %d operands did not return *UnionSDF2", n)
